@@ -274,7 +274,7 @@ func init() {
 			r.Count("MAPEQ functions scanned", len(ef))
 			runF2I(c, r, "F2I", c.fnsNamed(r, "jsonata.evalRange"))
 			rc := runRANGECAP(c, r, "RANGECAP", ef)
-			r.RequireMin("RANGECAP sizes converted from numbers and used to size a slice or a loop", rc, 2)
+			r.RequireMin("RANGECAP sizes converted from numbers and used to size a slice or a loop", rc, 1)
 			ng := runNEGFOLD(c, r, "NEGFOLD")
 			r.RequireMin("NEGFOLD success returns of NegationNode.optimize", ng, 1)
 			r.Assume("numbers entering evaluation (decoded JSON, number literals) are finite; FIN shows finiteness is preserved")
@@ -800,7 +800,7 @@ func runPanics(c *Ctx, r *Result, rule string, reach *Reach, tabProved map[strin
 func init() {
 	register(&propDef{
 		ID:          "C09",
-		Explanation: "Decides the crash/hang classes that are visible in the shape of the code, over everything reachable from Eval in the module call graph: (NF) every kind-specific reflect accessor gets a provably resolved receiver (138 sites, interprocedural); (TAB) eval's type switch covers every node type the parser can emit and every operator-enum switch is exhaustive, so the 'unexpected node'/'unrecognised operator' panics are unreachable; (PANIC) every explicit panic under Eval is one of those or a listed exception; (LOOP) every loop under Eval has a recognised variant (range, counted towards an invariant bound, shrinking-suffix consumer, positive multiplicative scaling, or a reviewed entry) and every recursive SCC a reviewed structural descent; (GUARD) integer / and % have a dominating non-zero test, strconv.FormatInt bases are confined to [2,36], strings.Repeat counts are non-negative; (HASH) no interface-keyed map is indexed with a dynamically typed value; (IDX) every reflect.Value.Index gets an index proved within 0..Len-1; (BND) every native index and slice expression under Eval is in range: either the Go compiler's own prove pass removes its bounds check (asked with -d=ssa/check_bce on the current tree), or a difference-constraint proof over dominating comparisons, definitions and library post-conditions gives 0 <= low <= high <= len, or the unproved part is covered by a reviewed one-site invariant. (TA) every single-result type assertion is dominated by a reflect type test of the same value against a type variable whose initialiser denotes the asserted type, or asserts the success result of a function that only returns that type, or is a reviewed exception; (RO) the value of a struct field (Value.Field/FieldByName/FieldByIndex — possibly unexported, hence read-only for reflect) is only inspected until a CanInterface test, or the PkgPath test of the same field, has shown it usable, so function values and Go structs used as data cannot make reflect panic; (NILTYPE) no method is called on reflect.TypeOf(x) unless x is shown non-nil; (ZERO) a zero value is synthesised for a missing argument (reflect.Zero) only for optional parameter types, interface{} and reflect.Value, never for a named interface such as jtypes.Callable, whose nil value the built-ins would call; (ACYC) every store made through reflection into a data container (Value.Set/SetMapIndex) goes into a container allocated by the same activation or stores a scalar/zero Value, so Eval cannot make a value contain itself — the recursive walkers' descent arguments need finite depth. The transform's update store fails this and is a known finding. (KIND) every reflect.Value method with a kind or validity precondition (Len, Index, MapKeys, MapIndex, NumField, Field*, Float, Int, Bool, IsNil, Elem, Call, Type, Interface, CanInterface, Convert, Set, ...) gets a receiver whose possible kinds — computed interprocedurally over the module call graph in an own/resolved two-view lattice and refined by the dominating IsValid, == undefined, Kind() and jtypes-predicate tests — are all accepted by the method (interface/pointer kinds at the NF accessors being NF's obligation), or is a reviewed exception. NOT decided: nil interfaces used as values, reflect.Set on zero Values, stack depth, lt's own panic. (KIND, argument clause) the values handed to Value.Set, reflect.Append and reflect.AppendSlice are never the zero Value; (TA P3) an element of a local slice is asserted to type T only when every store into that slice boxes a T; (SORTTYPES) the mixed-type error of a sort term is decided from a per-term record kept over all items and only ever set, so lt never sees a number and a string.",
+		Explanation: "Decides the crash/hang classes that are visible in the shape of the code, over everything reachable from Eval in the module call graph: (NF) every kind-specific reflect accessor gets a provably resolved receiver (138 sites, interprocedural); (TAB) eval's type switch covers every node type the parser can emit and every operator-enum switch is exhaustive, so the 'unexpected node'/'unrecognised operator' panics are unreachable; (PANIC) every explicit panic under Eval is one of those or a listed exception; (LOOP) every loop under Eval has a recognised variant (range, counted towards an invariant bound, shrinking-suffix consumer, positive multiplicative scaling, or a reviewed entry) and every recursive SCC a reviewed structural descent; (GUARD) integer / and % have a dominating non-zero test, strconv.FormatInt bases are confined to [2,36], strings.Repeat counts are non-negative; (HASH) no interface-keyed map is indexed with a dynamically typed value; (IDX) every reflect.Value.Index gets an index proved within 0..Len-1; (BND) every native index and slice expression under Eval is in range: either the Go compiler's own prove pass removes its bounds check (asked with -d=ssa/check_bce on the current tree), or a difference-constraint proof over dominating comparisons, definitions and library post-conditions gives 0 <= low <= high <= len, or the unproved part is covered by a reviewed one-site invariant. (TA) every single-result type assertion is dominated by a reflect type test of the same value against a type variable whose initialiser denotes the asserted type, or asserts the success result of a function that only returns that type, or is a reviewed exception; (RO) the value of a struct field (Value.Field/FieldByName/FieldByIndex — possibly unexported, hence read-only for reflect) is only inspected until a CanInterface test, or the PkgPath test of the same field, has shown it usable, so function values and Go structs used as data cannot make reflect panic; (NILTYPE) no method is called on reflect.TypeOf(x) unless x is shown non-nil; (ZERO) a zero value is synthesised for a missing argument (reflect.Zero) only for optional parameter types, interface{} and reflect.Value, never for a named interface such as jtypes.Callable, whose nil value the built-ins would call; (ACYC) every store made through reflection into a data container (Value.Set/SetMapIndex) goes into a container allocated by the same activation or stores a scalar/zero Value, so Eval cannot make a value contain itself — the recursive walkers' descent arguments need finite depth. The transform's update store fails this and is a known finding. (KIND) every reflect.Value method with a kind or validity precondition (Len, Index, MapKeys, MapIndex, NumField, Field*, Float, Int, Bool, IsNil, Elem, Call, Type, Interface, CanInterface, Convert, Set, ...) gets a receiver whose possible kinds — computed interprocedurally over the module call graph in an own/resolved two-view lattice and refined by the dominating IsValid, == undefined, Kind() and jtypes-predicate tests — are all accepted by the method (interface/pointer kinds at the NF accessors being NF's obligation), or is a reviewed exception. NOT decided: nil interfaces used as values, reflect.Set on zero Values, stack depth, lt's own panic. (KIND, argument clause) the values handed to Value.Set, reflect.Append and reflect.AppendSlice are never the zero Value; (TA P3) an element of a local slice is asserted to type T only when every store into that slice boxes a T; (SORTTYPES) the mixed-type error of a sort term is decided from a per-term record kept over all items and only ever set, so lt never sees a number and a string. (OKUSE) the value of a comma-ok helper of the module whose failure path returns (nil, false) — jtypes.AsCallable and its like — is used only behind a test of its own ok result; a test of the sibling Is… predicate does not count, the two need not agree.",
 		Rule:        commonRule,
 		Fixtures:    []string{"nf", "guard", "hash", "tab", "loop", "bnd", "ta", "ro", "kind"},
 		Run: func(c *Ctx, r *Result) {
@@ -829,6 +829,8 @@ func init() {
 			h := runHASH(c, r, "HASH", srcFuncsIn(c.REval), c.REval)
 			r.Count("HASH interface-keyed map accesses under Eval", h)
 			runBNDFor(c, r, "BND", c.REval, "Eval", 180, 50)
+			ou := runOKUSE(c, r, "OKUSE", libFuncsIn(c, c.REval))
+			r.RequireMin("OKUSE calls of comma-ok helpers with a nilable value", ou, 4)
 			ta := runTA(c, r, "TA", libFuncsIn(c, c.REval), c.REval)
 			r.RequireMin("TA single-result type assertions under Eval", ta, 10)
 			ro := runRO(c, r, "RO", libFuncsIn(c, c.REval), c.REval)
